@@ -43,6 +43,8 @@ func vBubble(t *testing.T, fn func()) (msg string) {
 			msg = fmt.Sprint(p)
 		}
 	}()
+	vlib.BubbleEnter()
+	defer vlib.BubbleExit()
 	synctest.Test(t, func(*testing.T) { fn() })
 	return ""
 }
